@@ -93,10 +93,23 @@ def rule_num_prescale(ctx: Ctx) -> None:
     ctx.rule('NUM-PRESCALE', 'get_cov applies the 1/rows normalisation to an operand before the contraction', floor=1)
     f = p.get_func('layers.utils.get_cov')
     mms = [n for n in p.nodes(f) if isinstance(n, ast.BinOp) and isinstance(n.op, ast.MatMult)]
+    sparam = f.params[2] if len(f.params) > 2 else 'scale'
+
+    def is_scale(e: ast.AST, depth: int = 0) -> bool:
+        """e is (derived from) the normalisation: the scale parameter or the number of rows, through locals."""
+        t = norm(e)
+        if re.search(rf'\b{re.escape(sparam)}\b', t) or '.size(0)' in t or '.shape[0]' in t:
+            return True
+        if depth < 3:
+            for x in ast.walk(e):
+                if isinstance(x, ast.Name) and isinstance(x.ctx, ast.Load):
+                    if any(is_scale(d, depth + 1) for d in p.local_defs(f, x.id)):
+                        return True
+        return False
     for mm in mms:
-        scaled = any(isinstance(x, ast.BinOp) and isinstance(x.op, (ast.Div, ast.Mult)) and 'scale' in norm(x) for side in (mm.left, mm.right) for x in ast.walk(side))
+        scaled = any(isinstance(x, ast.BinOp) and isinstance(x.op, (ast.Div, ast.Mult)) and (is_scale(x.right) or is_scale(x.left)) for side in (mm.left, mm.right) for x in ast.walk(side))
         par = p.parent(f.module, mm)
-        outer = isinstance(par, ast.BinOp) and isinstance(par.op, (ast.Div, ast.Mult)) and 'scale' in norm(par.right if par.left is mm else par.left)
+        outer = isinstance(par, ast.BinOp) and isinstance(par.op, (ast.Div, ast.Mult)) and is_scale(par.right if par.left is mm else par.left)
         ctx.check(scaled and not outer, 'NUM-PRESCALE', f, f'{norm(mm)}: operand scaled before the product', norm(mm),
                   f'get_cov computes {norm(par if outer else mm)}: the unnormalised Gram sum a^T a is materialised in the factor dtype before dividing by the number of rows; '
                   'with float16 factors it overflows for finite inputs (gradients become inf/NaN)', mm)
